@@ -167,6 +167,13 @@ def r2_1(ctx):
                             return None
                         env = dict(env)
                         env["st"] = "SN"
+                    elif nm in ("has_pending_constraints", "has_pending_generators", "has_something_pending",
+                                "constraints_are_up_to_date", "generators_are_up_to_date",
+                                "constraints_are_minimized", "generators_are_minimized") and truth:
+                        # the status of a marked-empty polyhedron claims none of these
+                        if env.get("st") in (None, "U", "ME") and str(env.get("by", "")).startswith("<entry"):
+                            env = dict(env)
+                            env["st"] = "MN"
                     elif nm in ("minimize", "process_pending_constraints", "process_pending_generators", "process_pending",
                                 "strongly_minimize_constraints", "strongly_minimize_generators", "update_generators",
                                 "remove_pending_to_obtain_generators", "remove_pending_to_obtain_constraints"):
@@ -178,6 +185,9 @@ def r2_1(ctx):
                 return env
             ex2 = flow.Explorer(f, elem_effect=elem_effect, edge_effect=edge_effect)
             start_env = {"st": ENTRY_NONEMPTY[f.name]} if f.name in ENTRY_NONEMPTY else {}
+            if not start_env and f.j.get("access") == "public":
+                # a public member can be applied to an object that is marked empty
+                start_env = {"st": "ME", "by": "<entry: the receiver of a public member may be marked empty>"}
             path = ex2.find_path("ENTRY", lambda x: False, "EXIT", exit_ok=lambda env: not env.get("HIT"), start_env=start_env)
             if not found:
                 ctx.ok(rid, inst, f.where(c))
@@ -289,3 +299,8 @@ def run(ctx):
     r2_1(ctx)
     r2_2(ctx)
     r2_3(ctx)
+    from rules import dirty
+    fxd = ctx.extract([F.lib_unit(n) for n in FILES + ["Generator.cc", "Constraint.cc", "Generator_System.cc", "Constraint_System.cc",
+                                                        "Polyhedron_nonpublic.cc", "BHRZ03_Certificate.cc", "H79_Certificate.cc"]]
+                      + [F.driver_unit("domains.cc", file_re=r"Polyhedron_(inlines|templates|chdims_templates|conversion_templates|minimize_templates|simplify_templates)\.hh")])
+    dirty.run(ctx, "R2.4", fxd, lambda f: True, 20, "judged on the Polyhedron sources, its conversion / minimization templates and the constraint and generator classes")
